@@ -43,7 +43,7 @@ def c05(chk, opts):
     tokens = _tokens(chk)
     trace = chk.path("c05.ndjson")
     hx(["c05", "--seed", chk.seed, "--tokens", tokens, "--all-lits", 1 if thorough else 0, "--lists", 30000 if thorough else 2500, "--out", trace], timeout=3000)
-    r, events, bad = validate_independent(chk, "TraceNotation", trace, "TraceNotation(C05)", cfg="TraceNotationC05.cfg", heap="8g", timeout=3000)
+    r, events, bad = validate_independent(chk, "TraceNotation", trace, "TraceNotation(C05)", cfg="TraceNotationC05.cfg", heap="8g", xss="1g", timeout=3000)
     bodies = set()
     for e in events:
         if e.startswith('{"op":"tok"'):
@@ -127,7 +127,7 @@ def c10(chk, opts):
     with open(trace, "w") as f:
         f.write(open(t1).read())
         f.write(open(t2).read())
-    r, events, bad = validate_independent(chk, "TraceNotation", trace, "TraceNotation(C10)", cfg="TraceNotationC10.cfg", heap="10g", timeout=3000)
+    r, events, bad = validate_independent(chk, "TraceNotation", trace, "TraceNotation(C10)", cfg="TraceNotationC10.cfg", heap="10g", xss="1g", timeout=3000)
     nonempty = sum(1 for e in events if '"rng":[[' in e)
     shows = sum(1 for e in events if '"shows":[[' in e)
     for i in bad:
